@@ -280,12 +280,12 @@ def long_ops(rng, tier):
 def big_ops(rng, tier):
     """values whose frames exceed 64 KiB through one writer, between small ones"""
     ops = []
-    for k in range(6 if tier == "quick" else 40):
+    for k in range(10 if tier == "quick" else 60):
         sizes = rng.choice([[70000, 5], [5, 66000, 5, 70000, 5], [65537], [100005, 3, 65536]])
         vs = [("b", gen.rand_bytes(rng, n)) for n in sizes]
         ml = 200000
         total = sum(4 + len(F.payload(v)) for v in vs)
-        parts = F.rand_composition(rng, total, rng.choice([20000, 40000, 66000, 10 ** 6]))
+        parts = F.rand_composition(rng, total, rng.choice([20000, 40000, 66000, 10 ** 6, 3000, 9000, 16383, 16385]))
         evs = []
         for part in parts:
             while rng.random() < 0.4:
